@@ -266,6 +266,10 @@ impl<'r> Gen<'r> {
             if self.rng.chance(1, 6) {
                 self.feat("input_name_with_special_category_character");
                 format!("f{}{}", self.rng.pick(&['_', '&', '$']), self.next_file)
+            } else if self.rng.chance(1, 6) {
+                // characters of more than one byte in front of the extension point (the name is split at byte offsets)
+                self.feat("input_name_with_multibyte_character");
+                format!("f{}{}", self.rng.pick(&['é', 'ï', 'ß', '字', 'é']), self.next_file)
             } else {
                 format!("f{}", self.next_file)
             }
